@@ -102,7 +102,7 @@ def table_stage(chk):
 
 # ---------------------------------------------------------------- race reports
 
-FRAME_RE = re.compile(r"^\s+(\S.*?)\(.*\)\n\s+(\S+?):(\d+)(?: \+0x[0-9a-f]+)?\s*$", re.M)
+FRAME_RE = re.compile(r"^\s+(\S.*)\([^()\n]*\)\n\s+(\S+?):(\d+)(?: \+0x[0-9a-f]+)?\s*$", re.M)
 
 
 def parse_race_reports(out, repo):
